@@ -174,6 +174,58 @@ fn extra_bases() -> Vec<(&'static str, Program)> {
             ],
         },
     ));
+    // non-generic types with a still-open part, named by several annotation sites at different closings
+    let u = |n: &str| Some(Ty::User(n.into()));
+    v.push((
+        "blob-with-wildcard-field-two-closings",
+        Program {
+            tops: vec![
+                pr(),
+                Top::Raw("Box2 :: blob { tag: str, value: * }".into()),
+                top_fn("describe", vec![("b", u("Box2"))], RetAnn::Ty(Ty::Str), vec![Stmt::Expr(field(var("b"), "tag"))]),
+                start_fn(vec![
+                    Stmt::Def { name: "count".into(), mutable: false, ty: u("Box2"), value: Expr::Blob("Box2".into(), vec![("tag".into(), s("count")), ("value".into(), int(3))]) },
+                    Stmt::Def { name: "ratio".into(), mutable: true, ty: u("Box2"), value: Expr::Blob("Box2".into(), vec![("tag".into(), s("ratio")), ("value".into(), Expr::Float(0.5))]) },
+                    print_of(callv("describe", vec![var("count")])),
+                    print_of(callv("describe", vec![var("ratio")])),
+                    print_of(bin(BinOp::Add, field(var("count"), "value"), int(1))),
+                    print_of(bin(BinOp::Mul, field(var("ratio"), "value"), Expr::Float(2.0))),
+                ]),
+            ],
+        },
+    ));
+    v.push((
+        "blob-with-function-field-pure-and-impure-implementation",
+        Program {
+            tops: vec![
+                pr(),
+                Top::Raw("Spider :: blob { hp: int, eat: fn -> void }".into()),
+                start_fn(vec![
+                    Stmt::Def { name: "lazy".into(), mutable: false, ty: u("Spider"), value: Expr::Blob("Spider".into(), vec![("hp".into(), int(1)), ("eat".into(), Expr::Fn(Arc::new(FnLit { params: vec![], ret: RetAnn::Void, body: vec![], pure: true })))]) },
+                    Stmt::Def { name: "busy".into(), mutable: false, ty: u("Spider"), value: Expr::Blob("Spider".into(), vec![("hp".into(), int(2)), ("eat".into(), lambda(vec![], RetAnn::Void, vec![print_of(s("yum"))]))]) },
+                    Stmt::Expr(call(field(var("lazy"), "eat"), vec![])),
+                    Stmt::Expr(call(field(var("busy"), "eat"), vec![])),
+                    print_of(bin(BinOp::Add, field(var("lazy"), "hp"), field(var("busy"), "hp"))),
+                ]),
+            ],
+        },
+    ));
+    v.push((
+        "blob-with-bare-generic-enum-field-two-closings",
+        Program {
+            tops: vec![
+                pr(),
+                Top::Raw("Opt2 :: enum(*T)\n    Some *T,\n    Non,\nend".into()),
+                Top::Raw("Slot :: blob { name: str, content: Opt2 }".into()),
+                start_fn(vec![
+                    Stmt::Def { name: "a".into(), mutable: false, ty: u("Slot"), value: Expr::Blob("Slot".into(), vec![("name".into(), s("a")), ("content".into(), Expr::Variant("Opt2".into(), "Some".into(), Some(Box::new(int(1)))))]) },
+                    Stmt::Def { name: "b".into(), mutable: false, ty: u("Slot"), value: Expr::Blob("Slot".into(), vec![("name".into(), s("b")), ("content".into(), Expr::Variant("Opt2".into(), "Some".into(), Some(Box::new(s("x")))))]) },
+                    print_of(field(var("a"), "name")),
+                    print_of(field(var("b"), "name")),
+                ]),
+            ],
+        },
+    ));
     // function-typed definitions whose value is computed
     let twice = top_fn("twice", vec![("f", Some(fn_ii.clone()))], RetAnn::Ty(fn_ii.clone()), vec![Stmt::Expr(lambda(vec![("q", Some(Ty::Int))], RetAnn::Ty(Ty::Int), vec![Stmt::Expr(callv("f", vec![callv("f", vec![var("q")])]))]))]);
     v.push((
